@@ -201,6 +201,19 @@ class CFG:
                 work.append(t)
         return True
 
+    def reachable_cutting(self, start, cut_edges):
+        """blocks reachable from `start` without traversing any edge in cut_edges"""
+        seen = {start}
+        work = [start]
+        while work:
+            n = work.pop()
+            for t in self.succ.get(n, []):
+                if (n, t) in cut_edges or t in seen:
+                    continue
+                seen.add(t)
+                work.append(t)
+        return seen
+
     def exit_blocks(self):
         """blocks that contain a return (or fall to exit)"""
         return [b for b in self.blocks if self.exit in self.succ.get(b, [])]
